@@ -204,3 +204,89 @@ def structured_program(kind, n, where, marker):
     expected = 4 + (1 if counts else 0)
     payloads = [marker] + ([payload] if payload is not None else [])
     return src.encode("latin-1"), expected, payloads
+
+
+# ---------------------------------------------------------------------------
+# whole-compiler termination stream: short, semantically odd programs run through `nelua --analyze`
+# (parser + preprocessor + analyzer fixpoints) under a wall-clock bound.  The analyzer iterates scopes
+# until nothing more resolves; these programs aim at its delay / retry logic.
+SEMANTIC_SEEDS = [
+    # use of globals (typed / inferred, before / after their declaration) inside polymorphic functions
+    "local function f(a: auto) return a + G end\nprint(f(1))\nglobal G = 2\n",
+    "global G = 2\nlocal function f(a: auto) return a + G end\nprint(f(1))\n",
+    "local function f(a: auto) return a + G end\nprint(f(1))\nglobal G: integer = 2\n",
+    "global G: integer = 2\nlocal function f(a: auto) return a + G end\nprint(f(1))\n",
+    "local function f(a: auto) return a + G end\nprint(f(1))\nlocal G = 2\n",
+    "local G = 2\nlocal function f(a: auto) return a + G end\nprint(f(1))\n",
+    "global G = 2\nglobal function f(a: auto) return a + G end\nprint(f(1), f(1.5))\n",
+    "global G = 2\nlocal function f(a: auto) G = G + 1 return a end\nprint(f(1))\n",
+    "global G\nlocal function f(a: auto) return a + G end\nprint(f(1))\n",
+    "local function f(a: auto) return a + G end\nglobal G = f(1)\nprint(G)\n",
+    "global G = 1\nlocal function f(a: auto) return g(a) + G end\nlocal function g(a: auto) return a end\nprint(f(1))\n",
+    "global T = @record{x: integer}\nlocal function f(a: auto) local t: T = {x=a} return t.x end\nprint(f(1))\n",
+    # mutually recursive polymorphic / auto functions
+    "local f, g\nfunction f(a: auto) if a > 0 then return g(a - 1) end return 0 end\nfunction g(a: auto) return f(a) end\nprint(f(3))\n",
+    "local function f(a: auto): integer if a > 0 then return f(a - 1) end return 0 end\nprint(f(3))\n",
+    "local function f(a: auto) if a > 0 then return f(a - 1) end return 0 end\nprint(f(3))\n",
+    "local function f(a: auto) return f(a) end\nprint(f(1))\n",
+    "local function f(a: auto, b: auto) return f(b, a) end\nprint(f(1, 2.0))\n",
+    "local function f(a: auto) return a end\nlocal function g(a: auto) return f(g) end\nprint(g(1))\n",
+    # self-referential / recursive types
+    "local R = @record{next: *R}\nlocal r: R\nprint(r.next)\n",
+    "local R <forwarddecl> = @record{}\nR = @record{next: *R, v: integer}\nlocal r: R\nprint(r.v)\n",
+    "local R = @record{self: R}\nlocal r: R\n",
+    "local A = @record{b: B}\nlocal B = @record{a: A}\nlocal a: A\n",
+    "local A <forwarddecl> = @record{}\nlocal B = @record{a: A}\nA = @record{b: B}\nlocal a: A\n",
+    "local U = @union{u: U}\n",
+    "local T = @[2]T\n",
+    "local F = @function(F): F\nlocal f: F\n",
+    "local R = @record{f: function(R): R}\nlocal r: R\nprint(r.f)\n",
+    # concepts, overloads, generics that refer to themselves
+    "local C = #[concept(function(x) return C end)]#\nlocal function f(a: C) return a end\nprint(f(1))\n",
+    "local C = #[concept(function(x) return x.type.is_integral end)]#\nlocal function f(a: C) return f(a) end\nprint(f(1))\n",
+    "local function f(a: overload(integer, string)) return f(a) end\nprint(f(1))\n",
+    "## local function gen(T) return T end\nlocal G = #[generic(function(T) return G end)]#\nlocal x: G(integer)\n",
+    "local G <generic> = #[generic(function(T) return types.ArrayType(T, 2) end)]#\nlocal x: G(G(integer))\nprint(#x)\n",
+    # preprocessor / compile-time loops that depend on later declarations
+    "## for i=1,3 do\nlocal #|'v'..i|# = #[i]#\n## end\nprint(v1 + v2 + v3)\n",
+    "local x = y\nlocal y = x\n",
+    "local x: auto = x\n",
+    "local function f() return g() end\nlocal function g() return f() end\nprint(f())\n",
+    "global function f() return f() end\nprint(f())\n",
+    "local a = (function() return a end)()\n",
+    "goto l\nlocal x = 1\n::l::\nprint(x)\n",
+    "global G = 2\nlocal function f(a: auto) return function() return a + G end end\nprint(f(1)())\n",
+    "global G = 2\nlocal function f(a: auto) defer print(G) end return a end\nprint(f(1))\n",
+    "global G = 2\nlocal R = @record{}\nfunction R.m(a: auto) return a + G end\nprint(R.m(1))\n",
+    "global G = 2\nlocal R = @record{}\nfunction R:m(a: auto) return a + G end\nlocal r: R\nprint(r:m(1))\n",
+]
+
+
+# further shapes of the same defect as the designated witnesses (inferred-type global used in a polymorphic function):
+# run only once scope.lua carries the repair, so that an open defect is replayed by a handful of exact witnesses only
+SEMANTIC_SEEDS_POLY_GLOBAL = [
+    "global G = 'x'\nlocal function f(a: auto) return G .. a end\nprint(f('y'))\n",
+    "global G = 1\nlocal function g(a: auto) return a + G end\nlocal function f(a: auto) return g(a) + G end\nprint(f(1))\n",
+    "global A, B = 1, 2\nlocal function f(x: auto) return x + A + B end\nprint(f(1))\n",
+    "global t = (@record{x: integer}){x=1}\nlocal function f(a: auto) return a + t.x end\nprint(f(1))\n",
+    "local function f(a: auto) ## if a.type.is_integral then\n return a + G ## else\n return 0 ## end\nend\nprint(f(1))\nglobal G = 2\n",
+    "global G = 2\nlocal function f(a: auto) ## if a.type.is_integral then\n return a + G ## else\n return 0 ## end\nend\nprint(f(1))\n",
+]
+
+
+def semantic_program(rng):
+    """A random arrangement of a few declaration / use statements: the ORDER is what is being fuzzed."""
+    names = ["G", "H"]
+    decls = []
+    for n in names[: rng.choice([1, 1, 2])]:
+        kind = rng.choice(["global %s = %d", "global %s: integer = %d", "local %s = %d", "global %s = %d.5", "global %s: auto = %d"])
+        decls.append(kind % (n, rng.randrange(1, 9)))
+    body = " + ".join(["a"] + [d.split()[1].rstrip(":") for d in decls])
+    fkind = rng.choice(["local function f(a: auto) return %s end", "global function f(a: auto) return %s end",
+                        "local function f(a: auto, b: auto) return %s + b end", "local function f(a: integer) return %s end",
+                        "local function f(a: auto) local r = %s return r end"])
+    fdef = fkind % body
+    call = "print(f(1, 2))" if "b: auto" in fdef else rng.choice(["print(f(1))", "local r = f(1)\nprint(r)", "print(f(1), f(2.5))" if "integer)" not in fdef else "print(f(1))"])
+    stmts = decls + [fdef, call]
+    rng.shuffle(stmts)
+    return "\n".join(stmts) + "\n"
